@@ -3,6 +3,7 @@
 S2: the real TdmsWriter (instrumented) writes programs with symbolic pieces (string code points,
 integer property magnitudes) into a sink stream; an independent structural parser walks the
 bytes by the TDMS layout rules."""
+import os
 import z3
 from ..sx import explore, PathAbort, SymInt
 from ..stream import norm_bytes
@@ -32,7 +33,7 @@ META = dict(
     bounds=dict(quick='1-2 sessions x 1-2 segments, 12 object-list templates, arrays of 0-2 values, symbolic strings of 1-2 characters, '
                       'symbolic integers in [-2^63, 2^64)', thorough='same with 3 segments per session (triples with at most one symbolic-string template)'),
     outside=['longer programs / arrays', 'files given as paths (streams only)', 'values inside numeric arrays'],
-    stubs=['SinkStream (write-only, fileno unsupported like BytesIO)', 'struct.pack model', 'SymStr.encode: UTF-8 with a fork per '
+    stubs=['SinkStream (write-only, fileno unsupported like BytesIO)', 'path-based sessions: virtual files (open w/a, getsize, isfile, exists, truncate)', 'struct.pack model', 'SymStr.encode: UTF-8 with a fork per '
            'byte-length class'],
     assumptions=['TDMS layout rules as stated in the property (raw data index length 20, 28 for strings)'],
     buckets=dict(all=['string-channel', 'multibyte-string', 'symbolic-int-property', 'index-stream', 'two-sessions', 'empty-array',
@@ -80,6 +81,9 @@ def template(name, choose, idx, free=True):
         return [['group', 'g', [['s1', 'symstr:2'], ['s2', 'str']]], ['chan', 'g', 'a6', 'str', 2, [['s3', 'symstr:1']]]]
     if name == 'chan-then-group':
         return [['chan', 'g', 'a7', 'int32', 1, []], ['group', 'g', [['late', 'int:-2147483649']]], ['root', []]]
+    if name == 'chan-then-newgroup':
+        # an explicit GroupObject for a group not declared before, listed AFTER one of its channels; nothing implicit to add
+        return [['chan', 'g7', 'b9', 'int32', 1, []], ['group', 'g7', [['late', 'int:1']]], ['chan', 'g7', 'c9', 'int16', 2, []]]
     if name == 'odd-names':
         # empty channel / group names, quotes and slashes; the group objects are auto-added by the writer
         return [['chan', 'g', '', 'int32', 1, []], ['chan', '', "it's/a", 'int16', 2, []], ['chan', 'g', 'z9', 'uint8', 1, []]]
@@ -128,6 +132,9 @@ def tasks(tier, seed):
         ts.append(dict(sessions=[[a, b]], versions=[4713], index=True))
         ts.append(dict(sessions=[[a], [b]], versions=[4712, 4712], index=(TEMPLATES.index(a) % 2 == 0)))
     ts.append(dict(sessions=[['big']], versions=[4712], index=True))
+    ts.append(dict(sessions=[['one-chan', 'chan-then-newgroup']], versions=[4713], index=True))
+    ts.append(dict(sessions=[['full'], ['chan-then-newgroup']], versions=[4712, 4712], index=True))
+    ts.append(dict(sessions=[['chan-then-newgroup']], versions=[4712], index=False))
     ts.append(dict(sessions=[['tags-in-content']], versions=[4712], index=True))
     ts.append(dict(sessions=[['tags-in-content', 'one-chan']], versions=[4713], index=True))
     ts.append(dict(sessions=[['list-dt']], versions=[4712], index=True))
@@ -136,7 +143,8 @@ def tasks(tier, seed):
     ts.append(dict(sessions=[['two-chans', 'two-chans', 'two-chans-rev']], versions=[4712], index=False))
     ts.append(dict(sessions=[['two-chans'], ['two-chans-rev']], versions=[4712, 4713], index=True))
     ts.append(dict(sessions=[['big', 'one-chan']], versions=[4713], index=False))
-    for segs in (['full', 'one-chan'], ['one-chan', 'str-chan', 'two-groups'], ['str-props', 'dt-chan']):
+    for segs in (['full', 'one-chan'], ['one-chan', 'str-chan', 'two-groups'], ['str-props', 'dt-chan'],
+                 ['group-only', 'one-chan'], ['root-only', 'full', 'one-chan']):          # (first session without raw data: index as long as the data file)
         ts.append(dict(kind='paths', segs=segs, sessions=[segs], versions=[4712], index=True))
     if tier == 'thorough':
         for a, b, c in [(x, y, z) for x in TEMPLATES[:6] for y in TEMPLATES[4:9] for z in TEMPLATES[::3]]:
@@ -211,6 +219,19 @@ class _PathSink:
     def flush(self):
         pass
 
+    def tell(self):
+        return len(self.store[self.path])
+
+    def seek(self, off, whence=0):
+        if (whence, off) not in ((2, 0), (0, len(self.store[self.path]))):
+            raise OSError('virtual append-only file: seek(%r, %r)' % (off, whence))
+        return len(self.store[self.path])
+
+    def truncate(self, size=None):
+        size = len(self.store[self.path]) if size is None else size
+        del self.store[self.path][size:]
+        return size
+
     def fileno(self):
         import io
         raise io.UnsupportedOperation('fileno')
@@ -232,7 +253,14 @@ def _run_paths(task):
             h = _PathSink(store, str(path), mode)
             handles.append(h)
             return h
+        def vgetsize(path):
+            if str(path) not in store:
+                raise FileNotFoundError(str(path))
+            return len(store[str(path)])
         dispatch.OVERRIDES[builtins.open] = vopen
+        dispatch.OVERRIDES[os.path.getsize] = vgetsize
+        dispatch.OVERRIDES[os.path.isfile] = lambda p: str(p) in store
+        dispatch.OVERRIDES[os.path.exists] = lambda p: str(p) in store
         try:
             prog = wr.Program(ctx)
             segs = [template(n, ctx.choice, i, free=False) for i, n in enumerate(task['segs'])]
@@ -244,7 +272,8 @@ def _run_paths(task):
                 for sg in segs[1:]:
                     w.write_segment([prog.obj(o) for o in sg])
         finally:
-            dispatch.OVERRIDES.pop(builtins.open, None)
+            for f_ in (builtins.open, os.path.getsize, os.path.isfile, os.path.exists):
+                dispatch.OVERRIDES.pop(f_, None)
         ctx.obligations += 1
         if any(not h.closed for h in handles):
             ctx.fail('structure', problems=['writer left a file handle open'])
